@@ -694,16 +694,29 @@ def run(index, rep, tier):
                 add, dis = set(), set()
                 for st in block:
                     for c in ast.walk(st):
-                        if isinstance(c, ast.Call) and isinstance(c.func, ast.Attribute) and norm(c.func.value).startswith("self.") and c.args and isinstance(c.args[0], ast.Constant):
-                            if c.func.attr == "add":
-                                add.add((norm(c.func.value), c.args[0].value))
-                            elif c.func.attr in ("discard", "remove"):
-                                dis.add((norm(c.func.value), c.args[0].value))
+                        if isinstance(c, ast.Call) and isinstance(c.func, ast.Attribute) and norm(c.func.value).startswith("self.") and c.args:
+                            a0 = c.args[0]
+                            if isinstance(a0, ast.Constant):
+                                items = [a0.value] if c.func.attr in ("add", "discard", "remove") else (list(a0.value) if isinstance(a0.value, str) else None)
+                            elif isinstance(a0, (ast.List, ast.Tuple, ast.Set)) and all(isinstance(e, ast.Constant) for e in a0.elts):
+                                items = [e.value for e in a0.elts]
+                            else:
+                                items = None
+                            if items is None:
+                                if c.func.attr in ("add", "discard", "remove", "update", "difference_update"):
+                                    raise AnalysisError("R09.21: %s: `%s` changes a delimiter set by something that is not a constant" % (m.qualname, norm(c)[:50]))
+                                continue
+                            if c.func.attr in ("add", "update"):
+                                add.update((norm(c.func.value), i_) for i_ in items)
+                            elif c.func.attr in ("discard", "remove", "difference_update"):
+                                dis.update((norm(c.func.value), i_) for i_ in items)
                 return add, dis
             _t, on_body, off_body = pos_if(top[0])
             on_add, on_dis = ops(on_body)
             off_add, off_dis = ops(off_body)
             nset += 1
+            rep.check(on_dis <= off_add or not on_dis, "R09.21", m.qualname, "off-branch does not add back what the on-branch discards", fn_where(m), "%s: on discards %s, off adds them back" % (name, sorted(on_dis)),
+                      "%s discards %s when switched on but adds back only %s when switched off: after an interleaved matrix (or a CHARSET statement) the missing character is no delimiter of any kind any more - a carriage return then sticks to the token before it, so a CR-LF document that reads from a path (universal newlines) is refused when it arrives as a string" % (m.qualname, sorted(on_dis), sorted(off_add)))
             rep.check(on_add == off_dis and bool(on_add), "R09.21", m.qualname, "off-branch does not discard what the on-branch adds", fn_where(m), "%s: on adds %s, off discards the same" % (name, sorted(on_add)),
                       "%s adds %s when switched on but discards %s when switched off: the mode cannot be switched back, so once a CHARSET statement has made `-` a token (or an interleaved matrix has made line ends tokens) it stays one for the rest of the document - a later negative number is read as two tokens" % (m.qualname, sorted(on_add), sorted(off_dis)))
         rep.floor("R09.21", "mode setters of the NEXUS tokenizer", 2, nset)
